@@ -36,6 +36,12 @@ pub enum SerializableTerm {
     Aggregate(AggregateFunc, String),
     /// Arithmetic expression (e.g., D+1, X*Y)
     Arithmetic(SerializableArithExpr),
+    /// Boolean constant (`true` / `false`)
+    BoolConstant(bool),
+    /// Builtin function call, by function name (e.g. `abs(X)`, `upper(S)`)
+    FunctionCall(String, Vec<SerializableTerm>),
+    /// Vector literal (`[1.0, 2.0]`)
+    VectorLiteral(Vec<f64>),
 }
 
 /// Serializable arithmetic expression for JSON storage
@@ -140,8 +146,15 @@ impl SerializableTerm {
             Term::Arithmetic(expr) => {
                 SerializableTerm::Arithmetic(SerializableArithExpr::from_arith_expr(expr))
             }
-            // For other complex terms (FunctionCall, VectorLiteral),
-            // we simplify to placeholder as they're not typically used in view definitions
+            // Booleans, function calls and vector literals are part of a rule's meaning:
+            // turning them into `_` silently changed what a persistent rule computes.
+            Term::BoolConstant(b) => SerializableTerm::BoolConstant(*b),
+            Term::FunctionCall(func, args) => SerializableTerm::FunctionCall(
+                func.as_str().to_string(),
+                args.iter().map(SerializableTerm::from_term).collect(),
+            ),
+            Term::VectorLiteral(values) => SerializableTerm::VectorLiteral(values.clone()),
+            // Record syntax is desugared before rules are stored
             _ => SerializableTerm::Placeholder,
         }
     }
@@ -155,6 +168,14 @@ impl SerializableTerm {
             SerializableTerm::Placeholder => Term::Placeholder,
             SerializableTerm::Aggregate(func, var) => Term::Aggregate(func.clone(), var.clone()),
             SerializableTerm::Arithmetic(expr) => Term::Arithmetic(expr.to_arith_expr()),
+            SerializableTerm::BoolConstant(b) => Term::BoolConstant(*b),
+            SerializableTerm::FunctionCall(name, args) => match crate::ast::BuiltinFunc::parse(name) {
+                Some(func) => {
+                    Term::FunctionCall(func, args.iter().map(SerializableTerm::to_term).collect())
+                }
+                None => Term::Placeholder,
+            },
+            SerializableTerm::VectorLiteral(values) => Term::VectorLiteral(values.clone()),
         }
     }
 }
